@@ -8,7 +8,7 @@ RULE = ('seeded random instances (<= 4 students, <= 3 projects, <= 3 lecturers, 
 
 
 def cases(rng, tier):
-    for _ in range(60 if tier == 'quick' else 2500):
+    for _ in range(120 if tier == 'quick' else 2500):
         yield 'solver_run', LP.rand_case(rng, ncrit=(1, 1))
 
 
